@@ -29,7 +29,7 @@ FUNCTIONS = [
     _C + "_normalize_xyz@arrays",
     _C + "_lonlat_rad_to_xyz@arrays",
 ]
-STANDINS = ["coords"]
+STANDINS = ["coords", "consumers"]
 ASSUMPTIONS = [
     "A-TRIG: sin/cos/asin/acos/atan2/sqrt/fmod are uninterpreted with the algebraic axioms listed in trusted_base",
     "vectorised numpy conversion functions are verified for a generic element (parameters typed real): they use elementwise operations only; any indexing/reduction would make them UNDECIDED",
